@@ -5,6 +5,7 @@
 #include "replay/replay_common.h"
 #include <ksi/compatibility.h>
 #include <strings.h>
+#include <ksi/tlv.h>
 
 int main(int argc, char **argv) {
 	size_t n, l, i; char src[32]; static const char *alpha[7] = { "", "a", "A", "b", "ab", "AB", "aB" }; int x, y;
@@ -45,6 +46,25 @@ int main(int argc, char **argv) {
 		if ((r == 0) != (strcasecmp(alpha[x], alpha[y]) == 0)) RP_FAIL("KSI_strcasecmp(\"%s\", \"%s\") = %d", alpha[x], alpha[y], r);
 	}
 	if (KSI_strcasecmp(NULL, "a") == 0 || KSI_strcasecmp("a", NULL) == 0) RP_FAIL("KSI_strcasecmp(NULL, ..) reports equality");
+	/* KSI_TLV_toString: nested sample (depth 3) rendered into exactly-sized heap buffers of every size 0..200 (ASan checks
+	 * the bounds): terminated, and equal to the prefix of the full rendering */
+	{ static const unsigned char blob[] = { 0x88, 0x00, 0x00, 0x0f,  0x01, 0x02, 0xaa, 0xbb,  0x62, 0x00,  0x82, 0x03, 0x00, 0x05,  0x04, 0x03, 0x01, 0x02, 0x03 };
+	  KSI_CTX *ctx = NULL; KSI_TLV *tlv = NULL, *inner = NULL; KSI_LIST(KSI_TLV) *lst = NULL; char full[512]; size_t fl;
+	  if (KSI_CTX_new(&ctx) != KSI_OK || KSI_TLV_parseBlob(ctx, blob, sizeof(blob), &tlv) != KSI_OK) RP_FAIL("sample TLV does not parse");
+	  KSI_TLV_getNestedList(tlv, &lst);                                   /* expands one level */
+	  if (lst != NULL && KSI_TLVList_elementAt(lst, 2, &inner) == KSI_OK && inner != NULL) KSI_TLV_getNestedList(inner, &lst);
+	  memset(full, 'U', sizeof(full));
+	  if (KSI_TLV_toString(tlv, full, sizeof(full)) != full || memchr(full, 0, sizeof(full)) == NULL) RP_FAIL("KSI_TLV_toString: full rendering missing / unterminated");
+	  fl = strlen(full);
+	  for (n = 0; n <= 200; n++) {
+		char *b = malloc(n ? n : 1); memset(b, 'U', n ? n : 1);
+		if (KSI_TLV_toString(tlv, b, n) != b) RP_FAIL("KSI_TLV_toString(size %zu) failed", n);
+		if (n == 0) { if (b[0] != 'U') RP_FAIL("KSI_TLV_toString(size 0) wrote"); }
+		else { if (memchr(b, 0, n) == NULL) RP_FAIL("KSI_TLV_toString(size %zu): not terminated", n);
+		       if (strlen(b) != (fl < n - 1 ? fl : n - 1) || memcmp(b, full, strlen(b)) != 0) RP_FAIL("KSI_TLV_toString(size %zu): not the prefix of the full rendering (%zu chars)", n, strlen(b)); }
+		free(b);
+	  }
+	  KSI_TLV_free(tlv); KSI_CTX_free(ctx); }
 	printf("no disagreement\n");
 	return 0;
 }
